@@ -1422,7 +1422,7 @@ func (m *monitors) finish() {
 func (m *monitors) buildKey(snap *scheduler.VerifSnap) string {
 	w := m.w
 	b := &keyBuilder{alias: map[string]string{}, buf: make([]byte, 0, 4096)}
-	b.s("now=").i(nsTick(snap.Now)).s(" clk=").i(w.clock.tick()).s(" uu=").i(w.uuids).s(" st=").i(w.stageSpawned).s(" L").i(m.locks).s("|")
+	b.s("now=").i(nsTick(snap.Now)).s(" clk=").i(w.clock.tick()).s(" uu=").i(w.uuids).s(" st=").i(w.stageSpawned).s(" la=").i(w.lastActivity).s(" L").i(m.locks).s("|")
 	tid := func(idx int) int {
 		if idx < 0 {
 			return -1
